@@ -5,7 +5,7 @@
 
 package util
 
-//@ func ByteIsAny [C15]
+//@ func ByteIsAny [C15 C16]
 //@   pure
 //@   ensures result <==> exists i int :: 0 <= i && i < len(l) && l[i] == b
 //@   loop 1 invariant -1 <= rangeindex && rangeindex < len(l)
